@@ -112,7 +112,7 @@ def main(argv=None):
     if tasks:
         # heavy tasks first
         tasks.sort(key=lambda t: -getattr(pc.REGISTRY[t[0]], "weight", 1))
-        with mp.get_context("fork").Pool(min(a.j, len(tasks))) as pool:
+        with mp.get_context("fork").Pool(min(a.j, len(tasks)), maxtasksperchild=1) as pool:   # one fresh process per task: no state leaks between contracts
             for (qual, k, fr, err) in pool.imap_unordered(_task, tasks):
                 if err:
                     errors.append((qual, k, err))
